@@ -1,5 +1,6 @@
 import EmmyVerif.Model.Climb
 import EmmyVerif.Model.NumLex
+import EmmyVerif.Model.NumLexString
 import EmmyVerif.Drv.Util
 /-! Driver ops of the `climb` family (C03): `climb.parse <raw kinds, comma separated>` runs the expression
 model on the real lexer's token kinds with the regenerated table; `climb.numlex <4 feature bits> <hex text>`
@@ -39,6 +40,27 @@ def handle (op : String) (args : List String) : Option String :=
     pure (match NumLex.lexNumber cfg t with
       | some o => s!"ok {showKind o.kind} {o.len} {if o.err then 1 else 0}"
       | none => "err empty")
+  | "strlex", [h] => do
+    let t ← Drv.unhex h
+    let b := fun (x : Bool) => if x then 1 else 0
+    pure (match t with
+      | '"' :: _ | '\'' :: _ =>
+        (match StrLex.lexShort t with
+         | some (n, e) => s!"ok string {n} {b e}"
+         | none => "err empty")
+      | '[' :: _ =>
+        (match StrLex.lexBracket t with
+         | some (.leftBracket, n, e) => s!"ok leftbracket {n} {b e}"
+         | some (.longString, n, e) => s!"ok longstring {n} {b e}"
+         | some (.badDelimiter, n, e) => s!"ok longstring {n} {b e}"
+         | none => "err empty")
+      | '-' :: '-' :: r =>
+        let (long, n, e) := StrLex.lexAfterDashes r
+        s!"ok {if long then "longcomment" else "shortcomment"} {n + 2} {b e}"
+      | _ => "err start")
+  | "strcheck", [h] => do
+    let t ← Drv.unhex h
+    pure (if StrLex.checkString t then "ok 1" else "ok 0")
   | _, _ => none
 
 end Drv.Climb
